@@ -961,7 +961,7 @@ def run_c18(ctx):
     env['VERIF_RACE_ROUNDS'] = str(rounds)
     rc, out, dt = fw.sh(['go', 'test', '-race', '-tags', 'verif', '-run', 'TestConcurrent', '-count=1', '.'],
                         cwd=os.path.join(root, 'harness'), timeout=_tier(ctx, 900, 3600), env=env)
-    nops = 24
+    nops = 26
     ctx['evaluations'] += rounds * 32 * nops
     ctx['nontrivial'] += rounds * nops
     ctx['distribution']['race_rounds'] = rounds
@@ -1514,7 +1514,7 @@ PROPS = {
         'trust': ['K3 scanner harness/scan.go: purely syntactic (go/ast) listing of package-level variables, writes/address-taking/inc-dec whose root is one of them, init functions, go/select/channel/sync uses, in the non-test non-verif files of /repo, regenerated on every run',
                   'Model/Footprint.v: abstract interleaving model; its hypotheses (each call reads shared state and writes only private state) are what the regenerated facts support, not something proved of Go code',
                   'PARTIAL: data-race freedom under the Go memory model (allocator, runtime, govalues/decimal internals) is not modelled; it is exercised by go test -race with 32 goroutines x 18 API groups on shared read-only inputs, results compared with the sequential run'],
-        'rule': 'per round: one random shared (subject, clip) input; 32 goroutines each run all 24 API groups (round-join offsets with different delta/arc-tolerance ratios, rectangle clipping of paths inside the rectangle among them) (package functions and distinct engine / offset / rect-clip objects, including the functions that may return their argument) in rotated order under -race; evaluations = calls made concurrently; non-trivial = rounds x API groups',
+        'rule': 'per round: one random shared (subject, clip) input; 32 goroutines each run all 26 API groups (round-join offsets with different delta/arc-tolerance ratios, rectangle clipping of paths inside the rectangle among them) (package functions and distinct engine / offset / rect-clip objects, including the functions that may return their argument) in rotated order under -race; evaluations = calls made concurrently; non-trivial = rounds x API groups',
         'assumes': [],
     },
     'C11': {
